@@ -29,12 +29,19 @@ type MsgSpec struct {
 	Signer  string
 	Proto   string   `json:",omitempty"`
 	CPs     []string `json:",omitempty"`
+	CPsRaw  [][]byte `json:",omitempty"` // counterparty ids as raw bytes (strings that are not valid UTF-8 do not survive JSON)
 	Action  string   `json:",omitempty"`
 	MaxSize uint32   `json:",omitempty"`
 	OrigMsg, OrigAtt, NewCaller, NewRecipient []byte `json:",omitempty"`
 }
 
 func (m *MsgSpec) Build() (sdk.Msg, error) {
+	if m.CPsRaw != nil {
+		m.CPs = nil
+		for _, b := range m.CPsRaw {
+			m.CPs = append(m.CPs, string(b))
+		}
+	}
 	switch m.RPC {
 	case "PauseProtocol":
 		return &forwardertypes.MsgPauseProtocol{Signer: m.Signer, ProtocolId: m.Proto}, nil
@@ -70,6 +77,14 @@ func (w *World) OpPauseCC(p string, cps ...string) Op {
 }
 func (w *World) OpUnpauseCC(p string, cps ...string) Op {
 	return opMsg(fmt.Sprintf("UnpauseCrossChains(%s,%q)", p, cps), MsgSpec{RPC: "UnpauseCrossChains", Signer: w.Authority, Proto: p, CPs: cps})
+}
+// OpPauseCCRaw: counterparty ids given as raw bytes (not necessarily valid UTF-8).
+func (w *World) OpPauseCCRaw(p string, cps ...string) Op {
+	var raw [][]byte
+	for _, c := range cps {
+		raw = append(raw, []byte(c))
+	}
+	return opMsg(fmt.Sprintf("PauseCrossChains(%s,%q)", p, cps), MsgSpec{RPC: "PauseCrossChains", Signer: w.Authority, Proto: p, CPsRaw: raw})
 }
 func (w *World) OpPauseAction(a string) Op {
 	return opMsg("PauseAction("+a+")", MsgSpec{RPC: "PauseAction", Signer: w.Authority, Action: a})
